@@ -117,6 +117,17 @@ class Family(object):
             env, inp = drive.make_environ('POST', '/', '', data, 'text/xml; charset=utf-8')
         elif fam == 'httprpc':
             pairs = refflat.request_pairs(self.ir, md, args, '.')
+            if getattr(self, 'indexed_spelling', False):
+                # the other accepted spelling of a repeated primitive member: explicit indexes instead of repeated keys
+                seen, out = {}, []
+                multi = set(k for k, _ in pairs if sum(1 for k2, _ in pairs if k2 == k) > 1)
+                for k, v in pairs:
+                    if k in multi:
+                        out.append(('%s[%d]' % (k, seen.get(k, 0)), v))
+                        seen[k] = seen.get(k, 0) + 1
+                    else:
+                        out.append((k, v))
+                pairs = out
             data = refflat.query_string(pairs).encode()
             env, inp = drive.make_environ('GET', '/' + md['name'], data.decode(), b'', None)
         else:
@@ -176,6 +187,12 @@ def uses_xml_only(ir, md, args):
 
 def judge(R, F, md, args, pos, label, lt, repro):
     fam = F.fam
+    if fam == 'httprpc' and label.startswith('count') and not getattr(F, 'indexed_spelling', False):
+        F.indexed_spelling = True
+        try:
+            judge(R, F, md, args, pos, label + '_indexed', lt, dict(repro, spelling='indexed'))
+        finally:
+            F.indexed_spelling = False
     try:
         names, code, fault, exc, data = F.send(md, args)
     except (refxml.NotConformant, refxml.SchemaMismatch, refflat.NotExpressible, KeyError, TypeError, ValueError, AttributeError, OverflowError) as e:
